@@ -48,11 +48,25 @@ def srefToJson : SRef → Json
 
 def saddrToJson (a : SAddr) : Json := Json.arr (a.map srefToJson).toArray
 
-def optsOfJson (j : Json) : Except String Opts := do
+def sepOfName : String → Except String Sep
+  | "auto" => pure .auto
+  | "dot" => pure .dot
+  | "fslash" => pure .fslash
+  | x => throw s!"C07: unknown separator {x}"
+
+def optsOfJsonBool (j : Json) : Except String Opts := do
   pure { searchValues := ← getBool j "sv", searchKeys := ← getBool j "sk",
          searchAnchors := ← getBool j "sa", inclKeyAliases := ← getBool j "ika",
          inclValueAliases := ← getBool j "iva", expand := ← getBool j "expand",
          fslash := ← getBool j "fslash" }
+
+/-- `"sep": "auto" | "dot" | "fslash"` (the `PathSeparators` member handed to the search) when present,
+else the older `"fslash": Bool` -/
+def optsOfJson (j : Json) : Except String Opts := do
+  let o ← optsOfJsonBool j
+  match j.getObjVal? "sep" with
+  | .ok (.str n) => pure (o.withSep (← sepOfName n))
+  | _ => pure o
 
 mutual
 /-- every scalar the search may hand to `search_matches`: values, keys, anchor names -/
